@@ -460,6 +460,39 @@ CHECKS["C17"] = dict(
     ),
 )
 
+CHECKS["C02"] = dict(
+    harnesses={"pbt": dict(src="c02_banks.cpp", cfg="asan", kind="rc"),
+               "fuzz": dict(src="c02_banks.cpp", cfg="asan", kind="fuzz", extra_flags=["-DVERIF_FUZZ"])},
+    quick=[
+        dict(name="pbt", harness="pbt", workers=8, args=["--n", "500"]),
+        dict(name="fuzz", harness="fuzz", workers=8, empty_corpus_workers=2, args=["-runs=6000", "-max_len=20000"], unit_timeout=60),
+    ],
+    thorough=[
+        dict(name="pbt", harness="pbt", workers=16, args=["--n", "12000"], timeout=10800),
+        dict(name="fuzz", harness="fuzz", workers=16, empty_corpus_workers=4, args=["-max_total_time=900", "-max_len=40000"], unit_timeout=60, timeout=7200),
+    ],
+    rule="pbt hostile_fields: 1-5 instruments whose note offset (boundary-heavy int16: +-32768, +-12290, ...), drum key, feedback/algorithm, LFO sensitivity, 28 operator bytes, delays, "
+         "velocity offset and flags are hostile are placed in a well-formed WOPN v1/v2 image (banks with msb/lsb up to 255) loaded with opn2_openBankData, or written through "
+         "opn2_getBank(create)+opn2_setInstrument; then 4-40 ops select them (CC0/CC32/program) and play: note-ons on all keys incl. >127, velocities incl. >127, bends, RPN0 range, "
+         "portamento, 20 controllers with values 0..255, aftertouch, time (1 ms..2.5 s), note-off, panic/reset; 6 emulators, 1-3 chips, 7 volume models, OPN2/OPNA family. "
+         "fuzz: raw bytes (seeded with v1/v2 banks and OPNI files, and from an empty corpus) go, as exact-size heap copies, through WOPN_LoadBankFromMem, WOPN_LoadInstFromMem and "
+         "opn2_openBankData, followed by decoded play ops. Oracle: return codes in the documented sets, error text on rejection, an accepted block is at least as long as its declared "
+         "content needs, ASan/UBSan/asserts, 30 s CPU watchdog per case (every call returns), register tap: chip index < chips, port < 2, register 0x21..0xB7, value <= 0xFF. "
+         "Non-trivial = (pbt) bank accepted and >= 1 note-on sounded; (fuzz) the block got past the magic check; distinct by FNV-64 of the case.",
+    assumptions=[
+        "instrument writes through the API use the documented structure with every field at any representable value",
+        "'bounded time' is judged by CPU time: 30 s for a case of at most ~45 calls and a few seconds of rendered audio",
+    ],
+    min_nontrivial={"quick": 500, "thorough": 8000},
+    manifest=dict(
+        engine="rapidcheck + libFuzzer",
+        technique="coverage-guided fuzzing of the bank/instrument loaders (exact-size input blocks under ASan) and property-based testing with hostile instrument field values followed by generated play sequences, with return-code, CPU-time and register-range oracles",
+        level_text="Hostile bank bytes through all three loaders and hostile instrument fields through file and API routes, then played with any notes/controllers; memory errors, UB, "
+                   "undefined return codes, hangs (CPU watchdog) and out-of-range register writes are failures.",
+        level_note="Trusts the sanitizers and the register tap hook; the hang oracle is CPU time, never wall clock.",
+    ),
+)
+
 _C01_ENV = {"ASAN_OPTIONS": "max_allocation_size_mb=256"}
 CHECKS["C01"] = dict(
     harnesses={"pbt": dict(src="c01_music.cpp", cfg="asan", kind="rc", env=_C01_ENV),
